@@ -9,6 +9,9 @@ use serde_json::json;
 
 crate::array_contract_checks!(vecchk, VecKind, VecArray);
 
+/// number of long-chain shapes in the corpus
+const DEEP: u64 = 6;
+
 pub struct C07;
 
 /// all arrays of length <= 4 over values <= 3, in a fixed order
@@ -43,7 +46,7 @@ impl Monitor for C07 {
          = the zero indices as a set). non-trivial = non-empty input array; distinct = hash of the inputs. Also: get / get_range / set_range (all six range forms, excluded start bound, bounds anywhere in the array) / scatter_assign / scatter_assign_constant / sort_by on String elements, bincount at the tight size, irregular graphs of up to 700 nodes for connected components and dense numbering also for the tournament shapes."
     }
     fn corpus_len(&self) -> u64 {
-        EXHAUSTIVE + 6
+        EXHAUSTIVE + 6 + DEEP
     }
     fn floors(&self) -> Vec<(&'static str, u64)> {
         vec![
@@ -56,6 +59,7 @@ impl Monitor for C07 {
             ("class:self_loop_edge", 20),
             ("class:scatter_of_empty_array", 5),
             ("class:tournament_merge_order", 6),
+            ("class:long_merge_chain_on_a_thread_stack", 6),
             ("class:arrays_up_to_40", 500),
             ("class:arrays_of_several_hundred_elements", 100),
             ("class:repeat_run_longer_than_16", 50),
@@ -90,9 +94,37 @@ impl Monitor for C07 {
             }
             return;
         }
+        if idx >= EXHAUSTIVE + 6 && idx < EXHAUSTIVE + 6 + DEEP {
+            // long chains and stars of merges in every orientation, on a thread with the default 2 MiB stack: an
+            // implementation whose trees degenerate into paths recurses 4*10^5 deep
+            let n = if cfg!(miri) { 300usize } else { 400_000usize };
+            let shape = (idx - EXHAUSTIVE - 6) as usize;
+            let (src, tgt): (Vec<usize>, Vec<usize>) = match shape {
+                0 => ((0..n - 1).map(|i| i + 1).collect(), (0..n - 1).collect()),          // (i+1, i), ascending i
+                1 => ((0..n - 1).collect(), (0..n - 1).map(|i| i + 1).collect()),          // (i, i+1)
+                2 => ((0..n - 1).rev().map(|i| i + 1).collect(), (0..n - 1).rev().collect()), // (i+1, i), descending i
+                3 => ((0..n - 1).rev().collect(), (0..n - 1).rev().map(|i| i + 1).collect()),
+                4 => ((0..n - 1).collect(), vec![n - 1; n - 1]),                           // star (i, c)
+                _ => (vec![n - 1; n - 1], (0..n - 1).collect()),                           // star (c, i)
+            };
+            ctx.class("long_merge_chain_on_a_thread_stack");
+            use open_hypergraphs::array::NaturalArray;
+            let res = on_thread_stack(|| connected_components(&src, &tgt, n));
+            if let Some((lab, k)) = must_return(ctx, "vec::connected_components", "long_chain", res, || json!({"n": n, "shape": shape})) {
+                ctx.check(k == 1 && lab.len() == n && lab.iter().all(|&l| l == 0), "vec::connected_components/partition-equals-connectivity/value/long_chain", || json!({"n": n, "shape": shape, "observed_k": k}));
+            }
+            let (s2, t2) = (VecArray(src.clone()), VecArray(tgt.clone()));
+            let res = on_thread_stack(|| <VecArray<usize> as NaturalArray<VecKind>>::connected_components(&s2, &t2, n));
+            if let Some((lab, k)) = must_return(ctx, "connected_components", "long_chain", res, || json!({"n": n, "shape": shape})) {
+                ctx.check(k == 1 && lab.0.len() == n && lab.0.iter().all(|&l| l == 0), "connected_components/partition-equals-connectivity/value/long_chain", || json!({"n": n, "shape": shape, "observed_k": k}));
+            }
+            ctx.nontrivial(&("long_chain", shape));
+            ctx.sample("long_merge_chain", || json!({"n": n, "shape": shape}));
+            return;
+        }
         if idx < EXHAUSTIVE + 6 || (ctx.thorough && r.chance(1, 3000)) {
             // deep union-find trees: 2^k points merged in tournament order
-            let k = if idx < EXHAUSTIVE + 6 { 9 + (idx - EXHAUSTIVE) as u32 % 3 } else { 9 + r.below(4) as u32 };
+            let k = if cfg!(miri) { 4 } else if idx < EXHAUSTIVE + 6 { 9 + (idx - EXHAUSTIVE) as u32 % 3 } else { 9 + r.below(4) as u32 };
             let (n, pairs) = crate::gen::tournament_pairs(r, k);
             // leave a few points unmerged by dropping the last level for half of the cases
             let pairs: Vec<(usize, usize)> = if idx % 2 == 0 { pairs } else { pairs[..pairs.len() - 1].to_vec() };
